@@ -117,6 +117,10 @@ func (c *clientGenerator) Generate() error {
 			app.DefaultImports[defaultClientTarget] = path.Join(
 				c.GenOpts.LanguageOpts.baseImport(c.Target),
 				c.GenOpts.LanguageOpts.ManglePackagePath(c.ClientPackage, defaultClientTarget))
+			// and main.go refers to the commands as "cli", whatever --cli-package names them
+			app.DefaultImports[defaultCliTarget] = path.Join(
+				c.GenOpts.LanguageOpts.baseImport(c.Target),
+				c.GenOpts.LanguageOpts.ManglePackagePath(c.GenOpts.CliPackage, defaultCliTarget))
 		}
 		if err := c.GenOpts.renderApplication(&app); err != nil {
 			return err
